@@ -403,6 +403,7 @@ def analyse_func(name, entry, insns, summaries, thresholds, vec_entry_dirty=Fals
     special = []
     steps = 0
     store_seen = set()
+    zstack = []
 
     final = [False]
 
@@ -596,6 +597,11 @@ def analyse_func(name, entry, insns, summaries, thresholds, vec_entry_dirty=Fals
                 regs[p] = None
 
         def record_store(ad, w, srcval, kind, imm=None):
+            if collect and final[0] and ad is not None and ad[0] == 'stack' and srcval is not None and srcval[0] == 'I' and \
+                    srcval[1] == 0 == srcval[2] and kind in ('mov', 'vec'):
+                # own-frame bytes overwritten with zero (SAFE_DATA clearing of spilled state)
+                zstack.append((a, ad[1][0], ad[2], ad[3] + w))
+                return
             if not collect or ad is None or ad[0] != 'ptr':
                 return
             key = (a,)
@@ -1196,7 +1202,7 @@ def analyse_func(name, entry, insns, summaries, thresholds, vec_entry_dirty=Fals
         flow(nxt, st)
 
     res = FuncResult(name=name, entry=entry, issues=issues, calls={k: v[:8] for k, v in calls.items()}, exits=exits,
-                     ninsn=len(states), assumed=sorted(assumed), stores=stores, notes=notes, special=special)
+                     ninsn=len(states), assumed=sorted(assumed), stores=stores, notes=notes, special=special, zstack=zstack)
     if collect:
         res['addrs'] = None
     return res
